@@ -82,6 +82,11 @@ pub struct Client {
     /// send only this many bytes of the last request, then end
     #[serde(default)]
     pub truncate_last: Option<usize>,
+    /// after its connection has ended the client opens a new one and sends one plain request:
+    /// later connections must be served whatever happened on earlier ones (a worker that died in
+    /// a panicking handler must have been replaced)
+    #[serde(default)]
+    pub reconnect: bool,
 }
 
 #[derive(Serialize, Deserialize, Clone, Debug)]
@@ -328,6 +333,8 @@ pub struct ClientOut {
     pub closed_observed: Option<bool>,
     pub finished: bool,
     pub connect_error: Option<String>,
+    /// the follow-up connection: None = not attempted, Some(None) = no response, Some(Some(status))
+    pub reconnect_status: Option<Option<u16>>,
 }
 
 pub const SERVER_ADDR: &str = "127.0.0.1:8080";
@@ -480,7 +487,20 @@ pub fn run_client(cid: usize, c: &Client, expects: &[Expect], addr: SocketAddr, 
         _ => {}
     }
     drop(s);
+    let mut reconnect_status = None;
+    if c.reconnect {
+        reconnect_status = Some(match connect_retry(None, addr, 200) {
+            Ok(mut s2) => {
+                let mut l2 = RecvLog::new();
+                let bytes = format!("GET /ok HTTP/1.1\r\nHost: sim.test\r\nX-Client: {}\r\nX-Seq: reconnect\r\nConnection: close\r\n\r\n", cid);
+                write_all(&mut s2, bytes.as_bytes());
+                read_responses(&mut s2, &mut l2, 1, Duration::from_secs(30)).first().map(|r| r.status)
+            }
+            Err(_) => None,
+        });
+    }
     let mut o = out.lock().unwrap();
+    o.reconnect_status = reconnect_status;
     o.log = Some(log);
     o.sent = sent;
     o.idle_start_ns = idle_start;
@@ -873,6 +893,7 @@ pub fn gen_client(rng: &mut Rng, tier: Tier, timeout_ms: Option<u64>) -> Client 
         ending: ["close", "close", "halfclose", "wait", "rst"][rng.usize_below(5)].to_string(),
         window: if rng.chance(1, 8) { Some([64usize, 1024][rng.usize_below(2)]) } else { None },
         truncate_last,
+        reconnect: Rng::new(humsim::rng::mix(&[rng.next_u64(), 0xC01_0003])).chance(1, 3),
     }
 }
 
@@ -891,7 +912,7 @@ impl Prop for C01 {
         }
     }
     fn rule(&self) -> &'static str {
-        "One case = a generated application configuration (pool 1..4 threads, connection timeout none / 1..30 s, CORS wildcard / list / list whose entries are substrings of earlier ones / none) plus 1..4 (thorough 1..8) client scripts of 1..6 requests over 5 methods x 8 targets (bodies of 0, 7, 9, 20 000 and 150 000 bytes, an echo, a panicking handler, an unrouted path) x 2 versions x Connection variants x bodies 0..9000 bytes x malformed kinds x idle gaps, an explicit segmentation (cut offsets + inter-segment gap) of the client byte stream, lock-step or streamed pacing, an ending (close / half-close / wait / RST) and optional truncation of the last request, all under one seeded schedule and seeded network knobs (short reads/writes, default segmentation, tiny windows, latency). Distinct = distinct history shape: per client the sequence of (method, target kind, well-formedness, pacing, number of segments, statuses received, how the connection ended). Non-trivial = at least two requests on one connection or two overlapping connections, and at least one cut inside a request."
+        "One case = a generated application configuration (pool 1..4 threads, connection timeout none / 1..30 s, CORS wildcard / list / list whose entries are substrings of earlier ones / none) plus 1..4 (thorough 1..8) client scripts of 1..6 requests over 5 methods x 8 targets (bodies of 0, 7, 9, 20 000 and 150 000 bytes, an echo, a panicking handler, an unrouted path) x 2 versions x Connection variants x bodies 0..9000 bytes x malformed kinds x idle gaps, an explicit segmentation (cut offsets + inter-segment gap) of the client byte stream, lock-step or streamed pacing, an ending (close / half-close / wait / RST) optional truncation of the last request, and for one client in three a follow-up connection with one plain request after the first connection has ended, all under one seeded schedule and seeded network knobs (short reads/writes, default segmentation, tiny windows, latency). Distinct = distinct history shape: per client the sequence of (method, target kind, well-formedness, pacing, number of segments, statuses received, how the connection ended). Non-trivial = at least two requests on one connection or two overlapping connections, and at least one cut inside a request."
     }
     fn assumptions(&self) -> Vec<String> {
         vec![
@@ -904,7 +925,7 @@ impl Prop for C01 {
         ]
     }
     fn expected_counters(&self) -> Vec<&'static str> {
-        vec!["c01.requests", "c01.clients_streamed", "c01.clients_lockstep", "c01.two_requests_share_segment", "c01.cut_inside_request", "c01.malformed", "c01.lenient", "c01.idle_past_timeout", "c01.panic_requests", "c01.truncated_last", "c01.rst_ending", "net.short_read", "net.window_full", "net.segmented_write"]
+        vec!["c01.requests", "c01.clients_streamed", "c01.follow_up_connections", "c01.clients_lockstep", "c01.two_requests_share_segment", "c01.cut_inside_request", "c01.malformed", "c01.lenient", "c01.idle_past_timeout", "c01.panic_requests", "c01.truncated_last", "c01.rst_ending", "net.short_read", "net.window_full", "net.segmented_write"]
     }
     fn real_vs_stub(&self) -> (Vec<&'static str>, Vec<&'static str>) {
         (
@@ -1030,9 +1051,21 @@ impl Prop for C01 {
         }
         // R7: handler log per connection = the well-formed routed non-OPTIONS requests, in order, bodies exact
         if let Some(st) = hstate.lock().unwrap().clone() {
-            let hl = st.log.lock().unwrap().clone();
+            let mut hl = st.log.lock().unwrap().clone();
+            hl.retain(|e| e.seq != "reconnect");
             let outs_now: Vec<ClientOut> = outs.iter().map(|o| o.lock().unwrap().clone()).collect();
             check_handler_log(&mut rr, "C01", &scn, &expects, &outs_now, &client_ok, &hl);
+            // R6 (continued): a connection opened after an earlier one ended is served, whatever
+            // happened before (panicking handlers included)
+            for (cid, o) in outs_now.iter().enumerate() {
+                if let Some(st) = o.reconnect_status {
+                    rr.count("c01.follow_up_connections", 1);
+                    if st != Some(200) {
+                        let after_panic = scn.clients.iter().any(|c| c.reqs.iter().any(|r| r.path == "/panic"));
+                        rr.violate("C01/R6", format!("later-connection-not-served:{}", if after_panic { "after-a-handler-panic" } else { "no-panic" }), format!("client {} opened a new connection after its first one had ended and sent GET /ok: got {:?} instead of 200 (pool of {} thread(s))", cid, st, scn.threads));
+                    }
+                }
+            }
         }
         if nontrivial {
             rr.shapes.push(fnv64(shape.as_bytes()));
